@@ -10,5 +10,6 @@ CONSTANTS
   Barrier = FALSE
   CacheDbErr = FALSE
   QueryOnErr = FALSE
+  TwoStepNF = FALSE
 INVARIANTS OneQueryAtATime
 CHECK_DEADLOCK FALSE
